@@ -52,8 +52,9 @@ void h_new (void)
 	g_shm_new_calls = g_shm_free_calls = g_shm_own_calls = 0; g_shm_obj = NULL; g_shm_new_failed = 0; g_alloc_failed = 0; g_err_calls = 0;
 	g_seg_exists = nondet_bool (); g_seg_size = nondet_size_t ();
 	_Bool existed = g_seg_exists; psize seg_size0 = g_seg_size;
-	/* an existing segment is one made by p_shm_buffer_new(S): S + 17 bytes, S >= 1 */
-	__CPROVER_assume (!existed || (seg_size0 >= 18 && seg_size0 <= ((psize) 1 << 62)));
+	/* an existing segment is usually one made by p_shm_buffer_new(S) (S + 17 bytes, S >= 1), but it may be ANY segment of
+	 * that name, also one too small to hold the header and one byte: that open must fail cleanly */
+	__CPROVER_assume (!existed || seg_size0 <= ((psize) 1 << 62));
 	__CPROVER_assume (size <= ((psize) 1 << 62));
 #ifdef KF_EXCLUDE_C08_OPEN_SMALLER_SIZE
 	__CPROVER_assume (!IN_REGION);
@@ -66,12 +67,14 @@ void h_new (void)
 	OBL (g_shm_req_size == (size == 0 ? 0 : size + 17), "segment size requested = S + header + 1 (0 = open existing)");
 	if (b == NULL) {
 		OBL (g_shm_obj == NULL && g_shm_free_calls == (g_shm_new_failed ? 0 : 1), "failure: segment handle released (exactly once), nothing kept");
-		OBL (g_shm_new_failed || g_alloc_failed || (!existed && size == 0), "fails only for a reason");
+		OBL (g_shm_new_failed || g_alloc_failed || (!existed && size == 0) || (existed && seg_size0 <= 17), "fails only for a reason (incl. an existing segment too small for the header and one byte)");
+		if (existed && seg_size0 <= 17 && !g_shm_new_failed) CANARY ("segment too small");
 		OBL (g_shm_own_calls == 0, "a failed open never takes ownership: the names of an existing buffer and its lock survive the failure of one more handle");
 		CANARY ("new failed");
 	} else {
 		OBL (g_shm_obj != NULL && b->shm == g_shm_obj && g_shm_free_calls == 0, "handle owns the segment handle");
 		/* the handle's ring modulus is the SEGMENT's (every handle of the name computes positions with the same modulus) */
+		OBL (g_seg_size >= 18, "success only on a segment that can hold the header and at least one byte");
 		OBL (b->size == g_seg_size - 16, "handle modulus = segment size - header: opening an existing buffer ignores the size argument");
 		if (!existed) { OBL (b->size == size + 1, "creator: capacity exactly S"); CANARY ("created"); }
 		else CANARY ("opened existing");
